@@ -59,6 +59,36 @@ def do_seeded(sid):
         shutil.rmtree(d, ignore_errors=True)
 
 
+def fixed_entries():
+    out = []
+    for l in open(os.path.join(HERE, "known_findings.txt")):
+        m = re.match(r"fixed: property=(C\d\d) ([0-9a-f]{7,}) ", l)
+        if m:
+            out.append((m.group(1), m.group(2)))
+    return out
+
+
+def do_revert(item):
+    prop, h = item
+    name = f"{prop}-revert-{h}"
+    d = make_scratch()
+    try:
+        diff = sh(["git", "-C", REPO, "diff", h + "~1", h])
+        if diff.returncode != 0:
+            return name, {"ENV": ["commit not found: " + diff.stderr[:120]]}
+        pf = os.path.join(d, "fix.diff")
+        open(pf, "w").write(diff.stdout)
+        r = sh(f"cd {d}/repo && git init -q . && git apply -R {pf}")
+        if r.returncode != 0:
+            return name, {"SKIP": ["later commits changed the same lines: " + r.stderr.strip().splitlines()[0][:120]]}
+        b = sh("go build ./...", cwd=d + "/repo")
+        if b.returncode != 0:
+            return name, {"SKIP": ["reverted tree does not compile (a later commit depends on it)"]}
+        return name, run_checks(d)
+    finally:
+        shutil.rmtree(d, ignore_errors=True)
+
+
 def do_neutral(path):
     name = os.path.basename(path)[:-5]
     d = make_scratch()
@@ -120,8 +150,15 @@ def main():
         neutral = [n for n in neutral if only in n]
     if prop:
         seeded = [s for s in seeded if s.split("-")[0] == prop]
-    res = {"seeded": {}, "neutral": {}}
+    reverts = fixed_entries()
+    if only:
+        reverts = [x for x in reverts if only in f"{x[0]}-revert-{x[1]}"]
+    if prop:
+        reverts = [x for x in reverts if x[0] == prop]
+    res = {"seeded": {}, "neutral": {}, "reverted_fixes": {}}
     with concurrent.futures.ThreadPoolExecutor(max_workers=jobs) as ex:
+        for name, hits in ex.map(do_revert, reverts):
+            res["reverted_fixes"][name] = hits
         for sid, hits in ex.map(do_seeded, seeded):
             res["seeded"][sid] = hits
         for name, hits in ex.map(do_neutral, neutral):
@@ -144,6 +181,21 @@ def main():
             m = json.load(open(mp))
             m["detected_by"] = {k: hits[k][:3] for k in by}
             json.dump(m, open(mp, "w"), indent=1)
+    rev_missed, rev_skipped = [], []
+    for name in sorted(res["reverted_fixes"]):
+        hits = res["reverted_fixes"][name]
+        propn = name.split("-")[0]
+        by = sorted(k for k in hits if k not in ("ENV", "SKIP"))
+        if "SKIP" in hits:
+            rev_skipped.append(name)
+            print(f"{name:24s} skipped ({hits['SKIP'][0][:90]})")
+            continue
+        if "ENV" in hits:
+            print(f"{name}: ENV {hits['ENV']}")
+        if propn not in by:
+            rev_missed.append(name)
+        print(f"{name:24s} {'own' if propn in by else ('other' if by else 'MISSED'):7s} {','.join(by)}")
+    print(f"reverted fixes: {len(res['reverted_fixes'])}, skipped {len(rev_skipped)}, not reported by their own check: {rev_missed}")
     noisy = []
     for n in neutral:
         name = os.path.basename(n)[:-5]
@@ -161,6 +213,9 @@ def main():
             "seeded_changes": len(seeded),
             "seeded_detected": len(seeded) - len(missed),
             "seeded_missed": missed,
+            "reverted_fixes": len(res["reverted_fixes"]) - len(rev_skipped),
+            "reverted_fixes_skipped": rev_skipped,
+            "reverted_fixes_missed": rev_missed,
             "neutral_variants": len(neutral),
             "neutral_noisy": noisy,
             "detail": {sid: {k: v[:2] for k, v in res["seeded"][sid].items()} for sid in seeded},
